@@ -303,10 +303,10 @@ def _is_allowed_peripheral(func_current, peripheral_previous, mfl_funcs):
         n_prev = [func.keywords['n'] for func in peripheral_previous]
     else:
         n_prev = []
-    if not n_prev:
-        return n == min(n_all)
-    n_index = n_all.index(n)
-    return n_index > 0 and n_all[n_index - 1] < n
+    # Next compartment count in increasing order: the smallest count of the search
+    # space that is larger than every count already applied on this path
+    n_next = [m for m in n_all if all(m > p for p in n_prev)]
+    return bool(n_next) and n == min(n_next)
 
 
 def _update_name_and_description(name, features, me):
